@@ -8,6 +8,7 @@ import (
 
 	"github.com/libp2p/go-libp2p/core/network"
 	"github.com/libp2p/go-libp2p/core/peer"
+	recpb "github.com/libp2p/go-libp2p-record/pb"
 	ma "github.com/multiformats/go-multiaddr"
 
 	pb "github.com/libp2p/go-libp2p-kad-dht/pb"
@@ -275,3 +276,78 @@ var _ = vfRegister("VfCloserPeers", VfCloserPeers)
 var _ = vfRegister("VfDispatchAndEcho", VfDispatchAndEcho)
 var _ = vfRegister("VfAddProvider", VfAddProvider)
 var _ = vfRegister("VfProviderBudget", VfProviderBudget)
+
+// VfValueHandlers (C05, C09): what PUT_VALUE stores and GET_VALUE serves. An
+// optional well-formed earlier put, then a PUT_VALUE of arbitrary shape (message
+// key right / empty / another; record missing or keyed right / not at all /
+// otherwise; value valid or not, any rank), then a GET_VALUE.
+func VfValueHandlers() {
+	vfHashBits(vfParam("W"))
+	vfHashFixed()
+	e, _, _ := vfClientEnv(2, 1)
+	d := e.dht
+	ctx := context.Background()
+	from := peer.ID("sender-peer")
+	key := "/vf/thekey"
+	keys := []string{key, "", "/vf/other"}
+	prevRank := -1
+	if vfBool("earlierPut") {
+		r0 := vfU8("earlier.rank")
+		req := pb.NewMessage(pb.Message_PUT_VALUE, []byte(key), 0)
+		req.Record = &recpb.Record{Key: []byte(key), Value: []byte{1, r0}}
+		_, err := d.handlePutValue(ctx, from, req)
+		vfAssert(err == nil, "putvalue/well-formed-put-into-an-empty-store-is-acknowledged")
+		prevRank = int(r0)
+	}
+	msgKey := keys[vfChoose("put.messageKey", 3)]
+	req := pb.NewMessage(pb.Message_PUT_VALUE, []byte(msgKey), 0)
+	req.CloserPeers = []*pb.Message_Peer{{Id: []byte("stuffed")}}
+	hasRec := vfBool("put.hasRecord")
+	recKey := ""
+	valid := false
+	var rank byte
+	if hasRec {
+		recKey = keys[vfChoose("put.recordKey", 3)]
+		valid = vfBool("put.valueValid")
+		rank = vfU8("put.rank")
+		req.Record = &recpb.Record{Key: []byte(recKey), Value: []byte{vfIte(valid, byte(1), byte(0)), rank}}
+	}
+	resp, err := d.handlePutValue(ctx, from, req)
+	acked := err == nil
+	if acked {
+		vfAssert(hasRec && msgKey != "" && recKey == msgKey && valid, "putvalue/acknowledged-only-for-a-valid-record-keyed-like-the-message")
+		vfAssert(resp != nil && len(resp.CloserPeers) == 0 && len(resp.ProviderPeers) == 0, "putvalue/echo-carries-no-peer-records")
+		if msgKey == key && prevRank >= 0 {
+			vfAssert(int(rank) >= prevRank, "putvalue/a-worse-record-is-refused")
+		}
+	}
+	// what GET_VALUE serves for every key involved
+	for _, k := range []string{key, "/vf/other"} {
+		greq := pb.NewMessage(pb.Message_GET_VALUE, []byte(k), 0)
+		gresp, gerr := d.handleGetValue(ctx, from, greq)
+		vfAssert(gerr == nil && gresp != nil, "getvalue/no-error")
+		if gresp == nil {
+			continue
+		}
+		rec := gresp.GetRecord()
+		if rec != nil {
+			vfAssert(string(rec.GetKey()) == k, "getvalue/served-record-is-keyed-like-the-request")
+			vfAssert(len(rec.GetValue()) == 2 && rec.GetValue()[0] == 1, "getvalue/served-value-passed-the-validator")
+		}
+		wantRank := -1
+		if k == key {
+			wantRank = prevRank
+		}
+		if acked && msgKey == k && int(rank) > wantRank {
+			wantRank = int(rank)
+		}
+		if wantRank >= 0 {
+			vfAssert(rec != nil && len(rec.GetValue()) == 2 && int(rec.GetValue()[1]) >= wantRank, "getvalue/an-acknowledged-record-stays-readable-and-is-never-downgraded")
+		} else {
+			vfAssert(rec == nil, "getvalue/nothing-served-for-a-key-never-stored")
+		}
+	}
+	vfReach("valuehandlers/end")
+}
+
+var _ = vfRegister("VfValueHandlers", VfValueHandlers)
